@@ -46,6 +46,10 @@ def canon_impl(out):
 
 # error details the model does not reproduce exactly: compare the kind only
 LOOSE_DETAIL = {'NumericIndexIsNotValid', 'Other'}
+# ... except the `Other` messages of the callback builtins, which the model reproduces literally
+EXACT_OTHER = ('filter function must return a boolean, got ', 'function must return an array, got ',
+               'function must return a string, got ', 'array item must null or string, got ',
+               'array item must null or array, got ', 'array item ')
 
 
 def norm(ans):
@@ -57,6 +61,10 @@ def norm(ans):
     w = ans.split(' ')
     if w[0] == 'err' and len(w) >= 4 and w[1] == 'eval':
         kind = w[2]
+        if kind == 'Other':
+            d = vlib.unhx(w[3]).decode('utf-8', 'replace')
+            if d.startswith(EXACT_OTHER):
+                return 'err eval Other %s' % d + tr
         if kind in LOOSE_DETAIL:
             return 'err eval %s ?' % kind + tr
         if kind == 'InvalidBinaryOpTypes' or kind == 'InvalidUnaryOpType':
@@ -123,3 +131,25 @@ def shrink(prog, still_bad, max_rounds=200):
         if not improved:
             break
     return cur
+
+
+def compare_cases(rep, progs, prefix, max_stack, traces, desc, fuel=6000):
+    """Programs through implementation and model under one frame limit: crashes are violations, differences are
+    disagreements (replay record understood by the replay functions of c02/c04/c10)."""
+    srcs, io, mo = run_pair(progs, max_stack=max_stack, fuel=fuel, traces=traces)
+    for p, s, a, b in zip(progs, srcs, io, mo):
+        key = prefix + s
+        kind = a.split(' ')[2] if a.startswith('err eval') else a.split(' ')[0]
+        rep.bump(prefix + kind)
+        rep.count(key, kind not in ('StackOverflow',) and ' analyze ' not in a and ' parse ' not in a)
+        if a.startswith('panic') or a.startswith('crash'):
+            rep.violation(key, 'evaluation crashed: ' + a[:200], {'src': s, 'max_stack': max_stack, 'impl': a})
+            continue
+        if ' analyze ' in a or ' parse ' in a or ' lex ' in a:
+            rep.disagreement(key, 'directed program does not pass analysis', {'src': s, 'max_stack': max_stack, 'impl': a})
+            continue
+        if b.startswith('unsupported') or b.startswith('gas'):
+            rep.bump(prefix + 'model-' + b.split(' ')[0])
+            continue
+        if norm(a) != norm(b):
+            rep.disagreement(key, desc, {'src': s, 'sexp': G.to_sexp(p), 'max_stack': max_stack, 'impl': a, 'model': b})
